@@ -1341,8 +1341,8 @@ func validatePath(path string, fieldPath *field.Path) field.ErrorList {
 }
 
 const (
-	grpcFmt    = `[^\s{};]*`
-	grpcErrMsg = "must not include any whitespace character, `{`, `}`, or `;`"
+	grpcFmt    = `[^\s{};\\]*`
+	grpcErrMsg = "must not include any whitespace character, `{`, `}`, `;` or `\\`"
 )
 
 var grpcRegexp = regexp.MustCompile("^" + grpcFmt + "$")
